@@ -35,6 +35,10 @@ def gen_case(rng, i, tier):
         ws = [rng.choice([0.5, 1.5, 2.0, 0.25, 3.0, 1.0]) for _ in range(n)]
     if rng.random() < 0.3:
         ws = [ws[0]] * n
+    elif rng.random() < 0.3 and n >= 3:
+        # every position has the same conditional ratio w_i / (w_i + ... + w_n): e.g. [4,2,1,1]
+        ws = [2 ** (n - 2 - k) for k in range(n - 1)] + [1]
+        vals = [rng.choice(["a", "b"]) for _ in range(n)]
     mode = rng.choice(["sw5", "sw5", "sw4", "uniform", "pair_same", "pair_diff"])
     return dict(vals=vals, ws=ws, mode=mode, id1=rng.choice(["i1", "t(1)", "7"]), id2=rng.choice(["i2", "t(2)", "8"]))
 
